@@ -187,13 +187,18 @@ impl RADAU {
         // Adjust tolerances
         let expm = 2.0 / 3.0;
         let n = y.len();
-        let mut rtol = rtol;
-        let mut atol = atol;
+        // (component-wise, applied exactly once per component; a scalar tolerance is
+        // expanded first)
+        let mut rtol_v = Vec::with_capacity(n);
+        let mut atol_v = Vec::with_capacity(n);
         for i in 0..n {
             let quot = atol[i] / rtol[i];
-            rtol[i] = 0.1 * rtol[i].powf(expm);
-            atol[i] = rtol[i] * quot;
+            let r = 0.1 * rtol[i].powf(expm);
+            rtol_v.push(r);
+            atol_v.push(r * quot);
         }
+        let rtol = Tolerance::Vector(rtol_v);
+        let atol = Tolerance::Vector(atol_v);
 
         // Newton tolerance
         let newton_tol = match self.newton_tol {
